@@ -62,11 +62,12 @@ def matcher_list(pattern, lang):
 
 def rule_table(lang="en"):
     c = config_json()
-    rules = []
+    # the engine's order: the date rule first (SmartCalc::set_date_rule inserts it at the front), then the named rules in the
+    # order of their names (a BTreeMap)
+    rules = [{"name": "small_date", "pats": [matcher_list(p, lang) for p in date_patterns(lang)], "out": "DATE"}]
     for name in sorted(c["languages"][lang]["rules"]):
         pats = c["languages"][lang]["rules"][name]["rules"]
         rules.append({"name": name, "pats": [matcher_list(p, lang) for p in pats], "out": OUT_KIND.get(name, "same")})
-    rules.append({"name": "small_date", "pats": [matcher_list(p, lang) for p in date_patterns(lang)], "out": "DATE"})
     return rules
 
 
